@@ -426,6 +426,41 @@ func (a *ArithR) ufMath(e *Exec, st *State, name string, x *Term, where string) 
 			}
 		}
 	}
+	// lemma points: native value at p (widened) + monotonicity
+	if mono != 0 {
+		for _, p := range e.LemmaPoints[name] {
+			var v float64
+			switch name {
+			case "Sqrt":
+				v = math.Sqrt(p)
+			case "Exp":
+				v = math.Exp(p)
+			case "Log":
+				v = math.Log(p)
+			case "Log10":
+				v = math.Log10(p)
+			case "Asin":
+				v = math.Asin(p)
+			case "Atan":
+				v = math.Atan(p)
+			case "Acos":
+				v = math.Acos(p)
+			}
+			if math.IsNaN(v) || math.IsInf(v, 0) {
+				continue
+			}
+			w := math.Abs(v)*1e-12 + 1e-300
+			up, dn := s.Float(v+w), s.Float(v-w)
+			pt := s.Float(p)
+			if mono > 0 {
+				ax(s.Implies(s.Le(x, pt), s.Le(r, up)))
+				ax(s.Implies(s.Le(pt, x), s.Le(dn, r)))
+			} else {
+				ax(s.Implies(s.Le(x, pt), s.Le(dn, r)))
+				ax(s.Implies(s.Le(pt, x), s.Le(r, up)))
+			}
+		}
+	}
 	e.ufSites[fn] = append(e.ufSites[fn], x)
 	e.UFUsed[name]++
 	return r
